@@ -145,7 +145,7 @@ func runWorld(line string) string {
 	crashed := false
 	for j := 1; j <= rounds; j++ {
 		w.settle()
-		w.refresh(j == 1 || crashed)
+		w.refresh(crashed)
 		crashed = false
 		w.log = nil
 		w.count = map[string]int{}
